@@ -1,6 +1,8 @@
 // Package c07 drives the proportion plugin's reclaim gate (CanReclaimResources,
 // Reclaimable, FitsReclaimStrategy) on generated queue trees and victim sets and
-// emits the observations as Coq cases for Run/C07.v.
+// emits the observations as Coq cases for Run/C07.v (constructor Fn); session.go adds the
+// session-level stream (constructor Ssn): the real allocate and reclaim actions on generated
+// clusters with several reclaimers per session.
 //
 // Exactness discipline: every quantity is a small dyadic rational (k/4 GPUs,
 // multiples of 256 milli-CPU, multiples of 2^20 bytes), so +, - and comparisons are
@@ -236,7 +238,7 @@ func caseTerm(sc *scenario, o observed) string {
 			u.Pos(p.Rq), u.Pos(p.Eq), q(p.Rem[0]), q(p.Rem[1]), q(p.Rem[2]), u.Bool(o.Fits[i] == obsTrue)))
 	}
 	rc := fmt.Sprintf("{| rc_queue := %s; rc_res := %s; rc_preemptible := %s |}", u.Pos(sc.RcQueue), resTerm(sc.RcRes), u.Bool(sc.Preemptible))
-	return fmt.Sprintf("{| k_m := %s; k_qs := %s; k_rc := %s; k_victims := %s; k_can := %s; k_true := %s; k_false := %s; k_panic := %s; k_fits := %s |}",
+	return fmt.Sprintf("(Fn {| k_m := %s; k_qs := %s; k_rc := %s; k_victims := %s; k_can := %s; k_true := %s; k_false := %s; k_panic := %s; k_fits := %s |})",
 		q(sc.M), u.ListOf(sc.Queues, queueTerm), rc, u.List(vs), o.Can, u.Bool(o.RecTrue), u.Bool(o.RecFalse), u.Bool(o.RecPanic), u.List(fits))
 }
 
@@ -785,6 +787,12 @@ func Run(dir string, seed uint64, n int) error {
 	if firstErr != nil {
 		return firstErr
 	}
-	out.Stats["rule"] = "queue trees of depth 1-3 (1-3 departments, 0-3 children, occasional grandchildren) with dyadic quotas incl. 0 and -1, limits, fair shares around quota/allocation, parent allocation = sum of children; reclaimer in a leaf; 0-3 reclaimee leaf queues with 0-3 victims each sized within the queue's allocation (3/4 structured); 1/4 malformed (victims larger than the allocation, non-leaf / missing reclaimee or reclaimer queues, dangling parents, negative fair shares, multipliers < 1) after a fixed boundary corpus (order-dependence and sentinel witnesses, saturation ties for m = 1, 2, 1.5, fair share 0 / unlimited, non-preemptible bounds per level, MIG, missing queues); Reclaimable is called 2-20 times per case with shuffled map insertion; non-trivial = at least one victim and two queues; distinct by (tree shape, reclaimer, reclaimee queues and victim counts, multiplier, verdicts)"
+	nsess := n / 2
+	if nsess < 60 {
+		nsess = 60
+	}
+	runSessions(out, root, nsess)
+	out.Stats["session_stream"] = fmt.Sprintf("%d generated sessions + %d corpus sessions", nsess, len(sessionCorpus()))
+	out.Stats["rule"] = "queue trees of depth 1-3 (1-3 departments, 0-3 children, occasional grandchildren) with dyadic quotas incl. 0 and -1, limits, fair shares around quota/allocation, parent allocation = sum of children; reclaimer in a leaf; 0-3 reclaimee leaf queues with 0-3 victims each sized within the queue's allocation (3/4 structured); 1/4 malformed (victims larger than the allocation, non-leaf / missing reclaimee or reclaimer queues, dangling parents, negative fair shares, multipliers < 1) after a fixed boundary corpus (order-dependence and sentinel witnesses, saturation ties for m = 1, 2, 1.5, fair share 0 / unlimited, non-preemptible bounds per level, MIG, missing queues); Reclaimable is called 2-20 times per case with shuffled map insertion; non-trivial = at least one victim and two queues; distinct by (tree shape, reclaimer, reclaimee queues and victim counts, multiplier, verdicts). SESSION STREAM (n/2 sessions after a fixed corpus of 4: the two-reclaimers cluster of seeded/C07-2, its single-reclaimer control, its department-level variant, two legitimate commits): the real allocate and reclaim actions on real sessions (default plugins) over generated clusters: 2-3 full nodes of 2-5 GPUs, 1-2 departments, 2-5 leaf queues with deserved quotas below / exactly at / above their holdings, over-quota weights 0-2, occasional limits, CPU quotas and queue priorities, running 1-GPU jobs (some 2-GPU pods and 2-pod gangs), 2-4 pending reclaimer jobs of one or several queues (some non-preemptible, some 2-pod / 2-GPU), 2/3 of them restricted to one node by node affinity; half of the sessions are of the family drain (a node full of one victim queue, or of two leaf queues of one department, that is 0-2 GPUs over its quota, 2-4 reclaimers restricted to that node, another over-quota queue on a node they cannot use), half random. Per session the distribution records pending reclaimers (session_pending_reclaimers:k), committed reclaim statements (session_commits:k, session_commits_total, commits without eviction / placing >= 2 pods / with victims of 2 queues), sessions with >= 2 commits, sessions in which >= 2 commits took victims from the same leaf queue (sessions_with_2_or_more_commits_on_one_victim_queue) and sessions in which a commit left a victim queue (or its department) at or below its deserved GPUs while reclaimers were still pending (sessions_victim_queue_brought_to_quota_with_reclaimers_left); sessions whose recomputed fair shares differ from the session getters, are not reproducible or are off the dyadic grid are dropped and counted (session_dropped:*). A session is non-trivial when at least one reclaim statement was committed; distinct by (family, queue / node / reclaimer counts, commit shapes, same-queue and brought-to-quota flags)"
 	return out.Flush()
 }
